@@ -87,7 +87,7 @@ def phase_mc(prop, tier, specdir, scratch):
         cfg = mc["cfg"][tier] if isinstance(mc["cfg"], dict) else mc["cfg"]
         to = mc.get("timeout", {}).get(tier, 900) if isinstance(mc.get("timeout"), dict) else mc.get("timeout", 900)
         r = run_tlc(specdir, mc["module"], cfg, mc.get("workers", NCPU), scratch, f"mc{i}", to,
-                    xmx=mc.get("xmx", "16g"), extra=mc.get("extra", ()))
+                    xmx=mc.get("xmx", "6g"), extra=mc.get("extra", ()))
         expect_violation = mc.get("expect_violation")
         if expect_violation:
             # informational as-built run: must reproduce the known design-level counterexample
@@ -228,7 +228,7 @@ def phase_tv(prop, specdir, trace, scratch, tier):
         e["OUT_FILE"] = os.path.join(scratch, f"tv{k}.json")
         metadir = os.path.join(scratch, f"meta-tv{k}")
         lf = open(os.path.join(scratch, f"tlc-tv{k}.log"), "w")
-        procs.append((subprocess.Popen(tlc_cmd(t["module"], t["cfg"], 1, metadir, prop.get("tv_xmx", "3g")),
+        procs.append((subprocess.Popen(tlc_cmd(t["module"], t["cfg"], 1, metadir, prop.get("tv_xmx", "2g")),
                                        cwd=specdir, env=e, stdout=lf, stderr=subprocess.STDOUT), lf, k, first, n, e["OUT_FILE"]))
     fails = []
     consumed = 0
